@@ -1,8 +1,11 @@
 /-
   The character-level lexers read back what the writer writes (c2d) and the normal form of d4 lines.
+  Helper lemmas: Proofs/Lex0.lean (decimal rendering, token lines as characters), Lex1.lean (c2d
+  combinators), Lex2.lean (d4 combinators).
 -/
 import DdnnfVerif.Model.Lex
 import DdnnfVerif.Proofs.Persist
+import DdnnfVerif.Proofs.Lex2
 namespace Ddnnf.Lex
 
 /-- the numbers of a node fit the integer types the lexer parses them into (`usize` for child indices
@@ -20,19 +23,170 @@ def LineInRange : D4.Line → Prop
 
 /-- decimal rendering of a natural number: non-empty, digits only, read back by `natOf` -/
 theorem renderNat_spec (k : Nat) :
-    renderNat k ≠ [] ∧ (∀ c ∈ renderNat k, c.isDigit = true) ∧ natOf (renderNat k) = k := by
-  sorry
+    renderNat k ≠ [] ∧ (∀ c ∈ renderNat k, c.isDigit = true) ∧ natOf (renderNat k) = k :=
+  ⟨renderNat_ne_nil k, renderNat_digits k, natOf_renderNat k⟩
+
+/-! ### c2d node lines -/
+
+theorem zero_prefix (k : Nat) (rest : List Char) :
+    ['0'].isPrefixOf (renderNat k ++ rest) = decide (k = 0) := by
+  obtain ⟨c, r, h1, _, h3⟩ := renderNat_head k
+  by_cases hk : k = 0
+  · subst hk; rw [renderNat_zero]; simp [List.isPrefixOf]
+  · have : ¬ ('0' = c) := fun e => hk (h3 e.symm)
+    rw [h1]; simp [List.isPrefixOf, hk, this]
+
+theorem A0_prefix (k : Nat) (rest : List Char) :
+    "A 0".toList.isPrefixOf ('A' :: ' ' :: (renderNat k ++ rest)) = decide (k = 0) := by
+  rw [← zero_prefix k rest]; rfl
+
+theorem O00_prefix (k : Nat) (rest : List Char) :
+    "O 0 0".toList.isPrefixOf ('O' :: ' ' :: '0' :: ' ' :: (renderNat k ++ rest)) = decide (k = 0) := by
+  rw [← zero_prefix k rest]; rfl
+
+theorem A0_prefix_ne (c : Char) (cs : List Char) (h : c ≠ 'A') : "A 0".toList.isPrefixOf (c :: cs) = false := by
+  have e : "A 0".toList = ['A', ' ', '0'] := rfl
+  rw [e]; simp [List.isPrefixOf, Ne.symm h]
+
+theorem O00_prefix_ne (c : Char) (cs : List Char) (h : c ≠ 'O') : "O 0 0".toList.isPrefixOf (c :: cs) = false := by
+  have e : "O 0 0".toList = ['O', ' ', '0', ' ', '0'] := rfl
+  rw [e]; simp [List.isPrefixOf, Ne.symm h]
+
+theorem line_and (cs : List Nat) : renderTokLine (writeNode (.and cs)) = 'A' :: spaced (cs.length :: cs) := by
+  show renderTokLine (Tk.kw "A" :: natTk cs.length :: cs.map natTk) = _
+  rw [renderTokLine_cons, List.flatMap_cons, flatMap_natTk, render_natTk, spaced_cons]
+  rfl
+
+theorem line_or (cs : List Nat) :
+    renderTokLine (writeNode (.or cs)) = 'O' :: spaced (0 :: cs.length :: cs) := by
+  show renderTokLine (Tk.kw "O" :: natTk 0 :: natTk cs.length :: cs.map natTk) = _
+  rw [renderTokLine_cons, List.flatMap_cons, List.flatMap_cons, flatMap_natTk, render_natTk, render_natTk,
+    spaced_cons, spaced_cons]
+  simp [spaced]; rfl
+
+theorem line_lit (l : Int) : renderTokLine (writeNode (.lit l)) = 'L' :: ' ' :: renderInt l := by
+  show renderTokLine [Tk.kw "L", Tk.num l] = _
+  rw [renderTokLine_cons]; simp [render_num]; rfl
+
+
+theorem lexC2d_and (cs : List Nat) (h : NodeInRange (.and cs)) :
+    lexC2d ('A' :: spaced (cs.length :: cs)) = .ok (.node (normalizeNode (.and cs))) := by
+  have hr : ∀ x ∈ cs.length :: cs, x < 2 ^ 64 := by
+    intro x hx; rcases List.mem_cons.1 hx with rfl | hx
+    · exact h.1
+    · exact h.2 x hx
+  unfold lexC2d
+  rw [lexHeader_fail _ _ (by decide), O00_prefix_ne _ _ (by decide)]
+  simp only
+  cases cs with
+  | nil => rw [spaced_cons, A0_prefix]; rfl
+  | cons c cs =>
+    have hl : ¬ ((c :: cs).length = 0) := by simp
+    rw [spaced_cons, A0_prefix, ← spaced_cons]
+    simp only [hl, decide_false, Bool.false_eq_true, if_false, lexAnd, numbersAfter_spaced _ _ hr]
+    rfl
+
+theorem lexC2d_or (cs : List Nat) (h : NodeInRange (.or cs)) :
+    lexC2d ('O' :: spaced (0 :: cs.length :: cs)) = .ok (.node (normalizeNode (.or cs))) := by
+  have hr : ∀ x ∈ 0 :: cs.length :: cs, x < 2 ^ 64 := by
+    intro x hx; rcases List.mem_cons.1 hx with rfl | hx
+    · decide
+    · rcases List.mem_cons.1 hx with rfl | hx
+      · exact h.1
+      · exact h.2 x hx
+  have e : 'O' :: spaced (0 :: cs.length :: cs) = 'O' :: ' ' :: '0' :: ' ' :: (renderNat cs.length ++ spaced cs) := by
+    rw [spaced_cons, spaced_cons, renderNat_zero]; rfl
+  unfold lexC2d
+  rw [lexHeader_fail _ _ (by decide), A0_prefix_ne _ _ (by decide), lexAnd_fail _ _ (by decide)]
+  simp only
+  cases cs with
+  | nil => rw [e, O00_prefix]; rfl
+  | cons c cs =>
+    have hl : ¬ ((c :: cs).length = 0) := by simp
+    rw [e, O00_prefix, ← e]
+    simp only [hl, decide_false, Bool.false_eq_true, if_false, lexOr, numbersAfter_spaced _ _ hr]
+    rfl
+
+theorem lexC2d_lit (l : Int) (h : NodeInRange (.lit l)) :
+    lexC2d ('L' :: ' ' :: renderInt l) = .ok (.node (.lit l)) := by
+  unfold lexC2d
+  rw [lexHeader_fail _ _ (by decide), A0_prefix_ne _ _ (by decide), O00_prefix_ne _ _ (by decide),
+    lexAnd_fail _ _ (by decide), lexOr_fail _ _ (by decide)]
+  exact lexLit_render l h
 
 /-- **every node line the writer emits lexes back** (character level) to the node it was written from
 (childless inner nodes come back as the constants they denote) -/
 theorem lexC2d_writeNode (nd : NType) (h : NodeInRange nd) :
     lexC2d (renderTokLine (writeNode nd)) = .ok (.node (normalizeNode nd)) := by
-  sorry
+  cases nd with
+  | and cs => rw [line_and]; exact lexC2d_and cs h
+  | or cs => rw [line_or]; exact lexC2d_or cs h
+  | lit l => rw [line_lit]; exact lexC2d_lit l h
+  | tru =>
+    have : writeNode .tru = writeNode (.and []) := rfl
+    rw [this, line_and]; exact lexC2d_and [] ⟨by decide, by simp⟩
+  | fls =>
+    have : writeNode .fls = writeNode (.or []) := rfl
+    rw [this, line_or]; exact lexC2d_or [] ⟨by decide, by simp⟩
+
+/-! ### the header -/
+
+theorem not_whitespace_of_digit {c : Char} (h : c.isDigit = true) : c.isWhitespace = false := by
+  cases hb : c.isWhitespace with
+  | false => rfl
+  | true =>
+    simp only [Char.isWhitespace, Bool.or_eq_true, decide_eq_true_eq] at hb
+    rcases hb with ((rfl | rfl) | rfl) | rfl <;> revert h <;> decide
+
+theorem trimAscii_id (c d : Char) (mid : List Char) (hc : c.isWhitespace = false) (hd : d.isWhitespace = false) :
+    trimAscii (c :: (mid ++ [d])) = c :: (mid ++ [d]) := by
+  unfold trimAscii
+  simp [List.dropWhile, hc, hd]
+
+theorem line_header (N n : Nat) :
+    renderTokLine [.kw "nnf", natTk N, natTk 0, natTk n] = 'n' :: 'n' :: 'f' :: spaced [N, 0, n] := by
+  show renderTokLine (Tk.kw "nnf" :: [N, 0, n].map natTk) = _
+  rw [renderTokLine_cons, flatMap_natTk]
+  rfl
+
+theorem trimAscii_header (N n : Nat) :
+    trimAscii ('n' :: 'n' :: 'f' :: spaced [N, 0, n]) = 'n' :: 'n' :: 'f' :: spaced [N, 0, n] := by
+  have hne := renderNat_ne_nil n
+  obtain ⟨ini, d, hnd, hd⟩ : ∃ ini d, renderNat n = ini ++ [d] ∧ d.isDigit = true :=
+    ⟨_, _, (List.dropLast_concat_getLast hne).symm, renderNat_digits n _ (List.getLast_mem hne)⟩
+  have e : 'n' :: 'n' :: 'f' :: spaced [N, 0, n]
+      = 'n' :: (('n' :: 'f' :: ' ' :: (renderNat N ++ ' ' :: (renderNat 0 ++ ' ' :: ini))) ++ [d]) := by
+    simp [spaced_cons, spaced_nil, hnd]
+  rw [e]
+  exact trimAscii_id _ _ _ (by decide) (not_whitespace_of_digit hd)
+
+theorem lexHeader_spaced (N n : Nat) (hN : N < 2 ^ 64) (hn : n < 2 ^ 64) :
+    lexHeader ('n' :: 'n' :: 'f' :: spaced [N, 0, n]) = .ok (.header N 0 n) := by
+  have hs : stripPrefix "nnf".toList ('n' :: 'n' :: 'f' :: spaced [N, 0, n]) = some (spaced [N, 0, n]) := by
+    simp [stripPrefix, List.isPrefixOf]
+  have hr : ∀ x ∈ [N, 0, n], x < 2 ^ 64 := by
+    intro x hx; simp at hx; rcases hx with rfl | rfl | rfl <;> first | assumption | decide
+  unfold lexHeader
+  rw [hs]
+  simp only [numbersAfter_spaced _ _ hr]
 
 /-- the header line lexes back, also through the `trim` of `distribute_building` -/
 theorem lexC2d_header (N n : Nat) (hN : N < 2 ^ 64) (hn : n < 2 ^ 64) :
     lexC2d (trimAscii (renderTokLine [.kw "nnf", natTk N, natTk 0, natTk n])) = .ok (.header N 0 n) := by
-  sorry
+  rw [line_header, trimAscii_header]
+  unfold lexC2d
+  rw [lexHeader_spaced N n hN hn]
+
+theorem mapM_writeNode (f : List Char → Option NType) (nodes : List NType)
+    (hf : ∀ nd ∈ nodes, f (renderTokLine (writeNode nd)) = some (normalizeNode nd)) :
+    ((nodes.map writeNode).map renderTokLine).mapM f = some (nodes.map normalizeNode) := by
+  induction nodes with
+  | nil => rfl
+  | cons nd nodes ih =>
+    have h1 := hf nd (by simp)
+    have h2 := ih fun x hx => hf x (by simp [hx])
+    simp only [List.map_cons, List.mapM_cons, h1, h2]
+    rfl
 
 /-- **the saved file read back at character level**: the lines `write_ddnnf_to_file` writes for a node
 array parse (header test on the trimmed first line, lexer on every node line) to the feature count and
@@ -40,20 +194,72 @@ the nodes, exactly as the token-level `parseFile` of the C10 theorems -/
 theorem parseC2dText_writeFile (nodes : List NType) (n : Nat) (hr : ∀ nd ∈ nodes, NodeInRange nd)
     (hlen : nodes.length < 2 ^ 64) (hn : n < 2 ^ 64) :
     parseC2dText ((writeFile nodes n).map renderTokLine) = some (n, nodes.map normalizeNode) := by
-  sorry
+  unfold writeFile parseC2dText
+  simp only [List.map_cons, lexC2d_header _ _ hlen hn]
+  rw [mapM_writeNode _ nodes fun nd hnd => by simp only [lexC2d_writeNode nd (hr nd hnd)]]
+  rfl
 
 theorem parseC2dText_eq_parseFile (nodes : List NType) (n : Nat) (hr : ∀ nd ∈ nodes, NodeInRange nd)
     (hlen : nodes.length < 2 ^ 64) (hn : n < 2 ^ 64) :
     parseC2dText ((writeFile nodes n).map renderTokLine) = parseFile (writeFile nodes n) := by
-  sorry
+  rw [parseC2dText_writeFile nodes n hr hlen hn, parse_write]
+
+/-! ### d4 -/
+
+theorem renderD4_edge (a b : Nat) (fs : List Int) (k : Nat) :
+    renderD4 (.edge a b fs) k = edgeChars ((a : Int) :: (b : Int) :: fs) := by
+  simp [renderD4, edgeChars, renderInt_natCast]
 
 /-- **a d4 line in normal form lexes to the line it denotes** -/
 theorem lexD4_render (l : D4.Line) (k : Nat) (h : LineInRange l) : lexD4 (renderD4 l k) = .ok l := by
-  sorry
+  cases l with
+  | edge a b fs =>
+    obtain ⟨ha, ha', hb, hb', hf⟩ := h
+    have hr : ∀ x ∈ (a : Int) :: (b : Int) :: fs, I32 x := by
+      intro x hx
+      rcases List.mem_cons.1 hx with rfl | hx
+      · constructor <;> omega
+      · rcases List.mem_cons.1 hx with rfl | hx
+        · constructor <;> omega
+        · exact hf x hx
+    rw [renderD4_edge]
+    unfold lexD4
+    rw [lexEdge_edgeChars _ _ _ hr (by omega) (by omega)]
+    simp
+  | node g =>
+    cases g with
+    | lit l => exact absurd h (by simp [LineInRange])
+    | or =>
+      show lexD4 ('o' :: ' ' :: (renderNat k ++ [' ', '0'])) = _
+      unfold lexD4
+      rw [lexEdge_letter _ _ (by decide) (by decide)]
+      simp [lexNodeLine_render]
+    | and =>
+      show lexD4 ('a' :: ' ' :: (renderNat k ++ [' ', '0'])) = _
+      unfold lexD4
+      rw [lexEdge_letter _ _ (by decide) (by decide)]
+      simp [lexNodeLine_render]
+    | tru =>
+      show lexD4 ('t' :: ' ' :: (renderNat k ++ [' ', '0'])) = _
+      unfold lexD4
+      rw [lexEdge_letter _ _ (by decide) (by decide)]
+      simp [lexNodeLine_render]
+    | fls =>
+      show lexD4 ('f' :: ' ' :: (renderNat k ++ [' ', '0'])) = _
+      unfold lexD4
+      rw [lexEdge_letter _ _ (by decide) (by decide)]
+      simp [lexNodeLine_render]
 
 /-- … hence a d4 text in normal form parses to its list of lines -/
 theorem parseD4Text_render (ls : List (D4.Line × Nat)) (h : ∀ p ∈ ls, LineInRange p.1) :
     parseD4Text (ls.map fun p => renderD4 p.1 p.2) = some (ls.map (·.1)) := by
-  sorry
+  unfold parseD4Text
+  induction ls with
+  | nil => rfl
+  | cons p ls ih =>
+    have h1 := lexD4_render p.1 p.2 (h p (by simp))
+    have h2 := ih fun x hx => h x (by simp [hx])
+    simp only [List.map_cons, List.mapM_cons, h1, h2]
+    rfl
 
 end Ddnnf.Lex
